@@ -742,11 +742,13 @@ fn gen_header_items(r: &mut Rng) -> (Vec<(u32, Val)>, Vec<(u32, Val)>) {
             match r.below(5) {
                 0 => Vec::new(),
                 1 => b"abc".to_vec(),
-                _ => {
-                    if algo8 {
-                        crate::util::sha256_hex(&r.bytes(4)).into_bytes()
-                    } else {
-                        hex::encode(r.bytes(16)).into_bytes()
+                k => {
+                    let h = if algo8 { crate::util::sha256_hex(&r.bytes(4)) } else { hex::encode(r.bytes(16)) };
+                    // the header stores text: upper-case and mixed-case digits must come back as stored
+                    match k {
+                        2 if r.chance(1, 2) => h.to_uppercase().into_bytes(),
+                        3 if r.chance(1, 2) => h.chars().enumerate().map(|(i, c)| if i % 3 == 0 { c.to_ascii_uppercase() } else { c }).collect::<String>().into_bytes(),
+                        _ => h.into_bytes(),
                     }
                 }
             }
